@@ -1,11 +1,104 @@
 import TdVerif.Sexp
+import TdVerif.Model.C01Coherence
 
 namespace TdVerif.Drive
 open TdVerif Sexp
+open TdVerif.C01
 
+namespace C01D
+
+def hexVal (c : Char) : Option Nat :=
+  if '0' ≤ c ∧ c ≤ '9' then some (c.toNat - '0'.toNat)
+  else if 'a' ≤ c ∧ c ≤ 'f' then some (c.toNat - 'a'.toNat + 10)
+  else none
+
+def unhex (s : String) : Option String :=
+  match s.toList with
+  | 'h' :: cs =>
+    let rec go : List Char → List UInt8 → Option (List UInt8)
+      | [], acc => some acc.reverse
+      | [_], _ => none
+      | a :: b :: r, acc => do
+        let x ← hexVal a; let y ← hexVal b
+        go r ((UInt8.ofNat (x * 16 + y)) :: acc)
+    match go cs [] with
+    | some bytes => String.fromUTF8? ⟨bytes.toArray⟩
+    | none => none
+  | _ => none
+
+def hexDigit (n : Nat) : Char := if n < 10 then Char.ofNat (48 + n) else Char.ofNat (87 + n)
+
+def tohex (s : String) : String :=
+  "h" ++ String.ofList (s.toUTF8.toList.flatMap fun b => [hexDigit (b.toNat / 16), hexDigit (b.toNat % 16)])
+
+def pathOf : Sexp → Option Path
+  | .list l => l.mapM fun (a : Sexp) => match a with
+    | Sexp.atom s => unhex s
+    | _ => none
+  | _ => none
+
+def optNat : Sexp → Option (Option Nat)
+  | .atom "none" => some none
+  | a => (asNat? a).map some
+
+def namesOf : Sexp → Option (Option DimNames)
+  | .atom "none" => some none
+  | .list l => (l.mapM fun (a : Sexp) => match a with
+      | Sexp.atom "none" => some (none : Option String)
+      | Sexp.atom s => (unhex s).map some
+      | _ => none).map some
+  | _ => none
+
+partial def treeOf : Sexp → Option M
+  | .list [.atom "l", .list sh, d] => do pure (.leaf (← nats? sh) (← asNat? d))
+  | .list (.atom "n" :: .list bs :: d :: ns :: kvs) => do
+    let kids ← kvs.mapM fun (kv : Sexp) => match kv with
+      | Sexp.list [Sexp.atom k, v] => do pure ((← unhex k), (← treeOf v))
+      | _ => none
+    pure (.node (← nats? bs) (← optNat d) (← namesOf ns) kids)
+  | _ => none
+
+def namesTo : Option DimNames → Sexp
+  | none => .atom "none"
+  | some l => .list (l.map fun n => match n with
+    | none => .atom "none"
+    | some s => .atom (tohex s))
+
+partial def treeTo : M → Sexp
+  | .leaf s d => .list [.atom "l", ofNats s, ofNat d]
+  | .node bs d ns kids =>
+    .list (.atom "n" :: ofNats bs :: (match d with | none => .atom "none" | some x => ofNat x) :: namesTo ns ::
+      kids.map fun kv => .list [.atom (tohex kv.1), treeTo kv.2])
+
+def errTo : Err → String
+  | .key => "key" | .value => "value" | .runtime => "runtime" | .other => "other" | .attr => "attr"
+  | .index => "index" | .type => "type"
+
+def outTo : Out → Sexp
+  | .ok => .list [.atom "ok"]
+  | .err e => .list [.atom "err", .atom (errTo e)]
+
+def opOf : Sexp → Option Op
+  | .list [.atom "set", h, k, v] => do pure (.set (← pathOf h) (← pathOf k) (← treeOf v))
+  | .list [.atom "setbatch", h, .list bs] => do pure (.setBatch (← pathOf h) (← nats? bs))
+  | .list [.atom "setnames", h, ns] => do pure (.setNames (← pathOf h) (← namesOf ns))
+  | .list [.atom "del", h, k] => do pure (.del (← pathOf h) (← pathOf k))
+  | .list [.atom "rename", h, o, n] => do pure (.rename (← pathOf h) (← pathOf o) (← pathOf n))
+  | .list [.atom "create", h, k] => do pure (.createNested (← pathOf h) (← pathOf k))
+  | .list [.atom "clear", h] => do pure (.clear (← pathOf h))
+  | _ => none
+
+end C01D
+
+open C01D in
 /-- line-protocol handler for C01: commands are named `c01.<something>` -/
 def handleC01 (cmd : String) (args : List Sexp) : Option Sexp :=
   match cmd, args with
+  | "c01.step", [t, op] => do
+      let t ← treeOf t
+      let op ← opOf op
+      let (t', out) := step t op
+      pure (.list [treeTo t', outTo out])
   | _, _ => none
 
 end TdVerif.Drive
